@@ -227,7 +227,6 @@ def inDom (p : VPair) : Bool := !p.d.atoms.contains "dropped-duplicate" && !p.d.
 /-- the semantic oracles of C01–C05, on the implementation's output -/
 def oracleSem (prop : String) (o : Opts) (env : Env) (inN outN : Node) : Verdict :=
   if o.resolveType then .skip "resolveType" else
-  if hasJsxAttrValue inN then .skip "jsx-element-as-attribute-value" else
   let sv := semView o env (effectivePragma o env) inN outN
   if prop == "C01" then
     -- elements carrying v-model are judged by C05
@@ -382,7 +381,6 @@ def c13Pair (o : Opts) (p : VPair) : Option (String × String) :=
 
 def oracleC13 (o : Opts) (env : Env) (inN outN : Node) : Verdict :=
   if o.resolveType then .skip "resolveType" else
-  if hasJsxAttrValue inN then .skip "jsx-element-as-attribute-value" else
   let sv := semView o env (effectivePragma o env) inN outN
   match (sv.pairs.filter inDom).findSome? (c13Pair o) with
   | some (k, d) => .fail k d
@@ -612,5 +610,47 @@ def oracleC09 (o : Opts) (env : Env) (inN outN : Node) : Verdict :=
     match firstDiff (blank d) (blank e) [] with
     | none => .ok
     | some (path, a, b) => .fail "skeleton" s!"outside JSX, at {path}: {showN a} became {showN b}"
+
+end VueJsx
+
+/-! ### C07: plain ECMAScript/TypeScript, or an error was reported -/
+namespace VueJsx
+
+def isIdentStart (c : Char) : Bool := c.isAlpha || c == '_' || c == '$' || c.toNat ≥ 128
+def isIdentPart (c : Char) : Bool := c.isAlphanum || c == '_' || c == '$' || c.toNat ≥ 128
+
+/-- IdentifierName (ASCII rules; non-ASCII characters are accepted) -/
+def isIdentName (s : String) : Bool :=
+  match s.toList with
+  | [] => false
+  | c :: cs => isIdentStart c && cs.all isIdentPart
+
+def jsxKindName (k : K) : Option String :=
+  match k with
+  | .jsxElement => some "element" | .jsxFragment => some "fragment" | .jsxMember => some "member-expression"
+  | .jsxNsName => some "namespaced-name" | .jsxEmpty => some "empty-expression" | .jsxOpening => some "element"
+  | .jsxAttr => some "element" | .jsxText => some "text" | .jsxExprContainer => some "expression-container"
+  | .jsxSpreadChild => some "spread-child" | .jsxClosing => some "element"
+  | _ => none
+
+def c07Node (n : Node) : Option (String × String) :=
+  match n with
+  | .mk k _ _ =>
+    match jsxKindName k with
+    | some nm => some ("leftover-jsx/" ++ nm, showN n)
+    | none =>
+      match n with
+      | .mk .ident ("" :: _) _ => some ("empty-identifier", "an identifier with an empty name")
+      | .mk .kv _ [.mk .ident (key :: "n" :: _) _, _] =>
+        if isIdentName key then none else some ("invalid-property-key", s!"unquoted object key {key}")
+      | .mk .call ("syn" :: _) (.mk .ident (nm :: "e" :: _) _ :: _) =>
+        if nm.toList.any Text.isUnicodeWs then some ("multi-word-callee", nm) else none
+      | _ => none
+
+def oracleC07 (outN : Node) (diags : List String) : Verdict :=
+  if !diags.isEmpty then .ok else
+  match (collect (fun n => (c07Node n).isSome) outN).head? with
+  | some n => match c07Node n with | some (k, d) => .fail k d | none => .ok
+  | none => .ok
 
 end VueJsx
